@@ -60,6 +60,8 @@ func main() {
 		runKmuxfid(r, n)
 	case "kstale":
 		runKstale(r, n)
+	case "kalias":
+		runKalias(r, n)
 	case "kmux":
 		runKmux(r, n)
 	case "kcs":
